@@ -42,6 +42,7 @@ type Kernel struct {
 	TimeoutMs       map[string]int            `json:"timeout_ms"`
 	MaxSteps        int64                     `json:"max_steps"`
 	MaxPaths        map[string]int64          `json:"max_paths"`
+	DeadlineS       map[string]int            `json:"deadline_s"`
 	Tiers           []string                  `json:"tiers"` // tiers in which the kernel runs (default both)
 	Desc            string                    `json:"desc"`
 	Bounds          map[string]string         `json:"bounds"` // tier -> human readable bound
@@ -276,11 +277,19 @@ func runKernel(ld *Loaded, k *Kernel, tier string, workers int, solverKind strin
 	if v, ok := k.MaxPaths[tier]; ok {
 		ex.maxPaths = v
 	}
+	limit := 240
+	if tier == "thorough" {
+		limit = 3600
+	}
+	if v, ok := k.DeadlineS[tier]; ok {
+		limit = v
+	}
 	if d := os.Getenv("GOSYM_KERNEL_DEADLINE_S"); d != "" {
 		if n, err := strconv.Atoi(d); err == nil {
-			ex.deadline = time.Now().Add(time.Duration(n) * time.Second)
+			limit = n
 		}
 	}
+	ex.deadline = time.Now().Add(time.Duration(limit) * time.Second)
 	ex.Run()
 	res.Stats = ex.stats
 	res.Viols = ex.viols
